@@ -81,7 +81,7 @@ impl DerivesRegistry {
         let DerivesRegistry {
             default_derives,
             mut specific_type_derives,
-            mut recursive_type_derives,
+            recursive_type_derives,
         } = self;
 
         if recursive_type_derives.is_empty() {
@@ -116,7 +116,9 @@ impl DerivesRegistry {
                 // this is only the case for types with empty path (i.e. builtin types).
                 continue;
             };
-            let Some(recursive_derives) = recursive_type_derives.remove(path) else {
+            // Note: several registry entries can share this path (instantiations of one generic
+            // type); each of them reaches its own set of types, so every one is a root.
+            let Some(recursive_derives) = recursive_type_derives.get(path).cloned() else {
                 continue;
             };
             // The collected_type_ids contain the id of the type itself and all ids of its fields:
